@@ -250,7 +250,7 @@ def harness_files(*rel):
 def go_test(pkg, run, overlay, env_extra, timeout=900, tags='verif', extra_args=()):
     env = go_env()
     env.update(env_extra)
-    cmd = [GO, 'test', '-tags', tags, '-vet=off', '-count=1', '-run', run]
+    cmd = [GO, 'test', '-tags', tags, '-vet=off', '-count=1', '-timeout', '%ds' % max(60, int(timeout) - 30), '-run', run]
     if overlay:
         cmd += ['-overlay', overlay]
     cmd += list(extra_args) + [pkg]
